@@ -7,7 +7,7 @@ from ..propsbase import *
 ASSUMPTIONS = ["the oracle evaluates the wire expression of every register holding a secret (also inside lists, tuples, arrays) "
                "on the backend's recorded lists and compares with the reported value modulo p, after every executed case, "
                "including cases that raise later and cases in ignore-errors mode / under false guards"]
-PARTIAL = ["C04_partial excludes `/` in programs that also contain a guarded region (finding C04-div-const) and nested guarded regions (composition not proved)"]
+PARTIAL = []
 LEVELS = "VSW"
 
 
